@@ -16,6 +16,7 @@
 package stream
 
 import (
+	"fmt"
 	"math/rand"
 	"net"
 	"sync"
@@ -86,6 +87,10 @@ type Script struct {
 		N        int    `json:"n"`
 		Together bool   `json:"together"`
 	} `json:"final"`
+	// ReadTimeout: the application reader of this direction ("c2s" | "s2c") first arms a read deadline, which fires
+	// while it waits (a recoverable error: nothing was lost), clears it, and reads on - everything written afterwards
+	// must still arrive.  (Transports that do not pass SetReadDeadline through are left alone.)
+	ReadTimeout string `json:"read_timeout"`
 	// Tap, if set, sees every byte an endpoint puts on the wire (dir, bytes), in order.
 	Tap func(dir string, b []byte) `json:"-"`
 }
@@ -434,6 +439,38 @@ func Run(w *vt.Writer, mkClient, mkServer Maker, sc *Script, after func(l *wire.
 		defer readers.Done()
 		off := 0
 		i := 0
+		if sc.ReadTimeout == dirIn {
+			if err := me.app.SetReadDeadline(time.Now().Add(time.Hour)); err == nil {
+				fired := make(chan struct{})
+				go func() { // the (virtual) deadline passes while the reader waits with nothing to read
+					defer close(fired)
+					dl := time.Now().Add(5 * time.Second)
+					for time.Now().Before(dl) {
+						if st := me.raw.State(); st.Parked && st.Inbox == 0 && st.RArmed {
+							me.raw.FireReadDeadline()
+							return
+						}
+						time.Sleep(200 * time.Microsecond)
+					}
+				}()
+				buf := make([]byte, 64)
+				k, err := me.app.Read(buf)
+				<-fired
+				w.Emit(vt.Ev{"event": "Info", "what": "read deadline", "n": k, "err": fmt.Sprint(err)})
+				if k > 0 { // data overtook the deadline: account for it like any other read
+					ok := true
+					for j := 0; j < k; j++ {
+						if buf[j] != PRF(dirIn, off+j) {
+							ok = false
+						}
+					}
+					w.Emit(vt.Ev{"event": "ReadRet", "d": dirIn, "off": off, "n": k, "ok": ok, "err": ""})
+					off += k
+					atomic.AddInt64(&me.deliv, int64(k))
+				}
+				me.app.SetReadDeadline(time.Time{})
+			}
+		}
 		for {
 			n := 4096
 			if len(sc.RBuf) > 0 {
